@@ -1,0 +1,13 @@
+//go:build !verif
+
+package p2p
+
+import (
+	libpeer "github.com/libp2p/go-libp2p/core/peer"
+)
+
+// Ordering points for deterministic simulation: the peer tracker hands out peers in
+// Go map iteration order. They compile to nothing unless the `verif` build tag is set.
+func simSortPeerStats([]*peerStat) {}
+
+func simTrackedOrder(map[libpeer.ID]*peerStat, int) []libpeer.ID { return nil }
